@@ -472,6 +472,28 @@ impl Target {
     }
 }
 
+//------------ EscapedLabelValue ---------------------------------------------
+
+/// Displays a label value escaped as the Prometheus text format requires.
+///
+/// Inside the quotes of a label value a backslash, a double quote and a
+/// line feed have to be written as `\\`, `\"` and `\n`.
+struct EscapedLabelValue<'a>(&'a str);
+
+impl fmt::Display for EscapedLabelValue<'_> {
+    fn fmt(&self, f: &mut fmt::Formatter) -> fmt::Result {
+        for ch in self.0.chars() {
+            match ch {
+                '\\' => f.write_str("\\\\")?,
+                '"' => f.write_str("\\\"")?,
+                '\n' => f.write_str("\\n")?,
+                ch => f.write_char(ch)?,
+            }
+        }
+        Ok(())
+    }
+}
+
 //------------ Records -------------------------------------------------------
 
 /// Allows adding all values for an individual metric.
@@ -516,7 +538,7 @@ impl<'b, 'a: 'b> Records<'a> {
                     write!(
                         &mut self.target.target,
                         "{{component=\"{}\"}}",
-                        unit_name
+                        EscapedLabelValue(unit_name)
                     )
                     .unwrap();
                 }
@@ -577,7 +599,7 @@ impl<'b, 'a: 'b> Records<'a> {
                     write!(
                         &mut self.target.target,
                         "component=\"{}\"",
-                        unit_name
+                        EscapedLabelValue(unit_name)
                     )
                     .unwrap();
                     comma = true;
@@ -587,14 +609,16 @@ impl<'b, 'a: 'b> Records<'a> {
                         write!(
                             &mut self.target.target,
                             ",{}=\"{}\"",
-                            name, value
+                            name,
+                            EscapedLabelValue(value)
                         )
                         .unwrap();
                     } else {
                         write!(
                             &mut self.target.target,
                             "{}=\"{}\"",
-                            name, value
+                            name,
+                            EscapedLabelValue(value)
                         )
                         .unwrap();
                         comma = true;
